@@ -185,7 +185,7 @@ def _replay_get(arl):
     return {"inputs": {"always_return_list": arl}, "expected": exp, "observed": got, "violates": got != exp or items != exp or a._d != {"one": ["x"], "two": ["x", "y"], "none": [], "tup": ("t",)}}
 
 
-def unit_json(U):
+def unit_json(U, prefix="C17"):
     it = Interp()
     log = []
     it.contracts[simplejson.dumps] = lambda interp, a, k: (log.append(("dumps", a, k)), IM.OpaqueJSON(a[0]))[1]
@@ -244,9 +244,9 @@ def unit_json(U):
         st = p.ctx.stash
         fresh = (p.kind == "return" and isinstance(st.get("r5"), Attributes) and isinstance(st.get("r6"), Attributes) and st["r5"] is not st["r6"] and st["r5"]._d is not st["r6"]._d
                  and st["r5"]._d.get("k") is not st["r6"]._d.get("k") and st.get("nloads") == 2)
-        U.prove("C17.json.fresh#p%d" % p.index, "every _unjsonify(text, isattributes=True) decodes anew: two decodes of the same text share no container (editing one Feature's value list cannot reach another)",
+        U.prove(prefix + ".json.fresh#p%d" % p.index, "every _unjsonify(text, isattributes=True) decodes anew: two decodes of the same text share no container (editing one Feature's value list cannot reach another)",
                 [], z3.BoolVal(bool(fresh)), {}, replay=replay_fresh)
-        U.prove("C17.json#p%d" % p.index, "_jsonify(Attributes) == dumps(x._d, compact); _jsonify(other) == dumps(x, compact); _unjsonify(s, True) == Attributes(loads(s)); _unjsonify(s) == loads(s)",
+        U.prove(prefix + ".json#p%d" % p.index, "_jsonify(Attributes) == dumps(x._d, compact); _jsonify(other) == dumps(x, compact); _unjsonify(s, True) == Attributes(loads(s)); _unjsonify(s) == loads(s)",
                 [], z3.BoolVal(bool(ok)), {}, replay=replay)
     # lemma: identity under A-J
     S = z3.DeclareSort("JsonVal")
@@ -254,7 +254,7 @@ def unit_json(U):
     dumps = z3.Function("dumps", S, T)
     loads = z3.Function("loads", T, S)
     x = z3.Const("x", S)
-    U.prove("C17.lemma.json_identity", "A-J (loads(dumps(d)) == d) ==> _unjsonify(_jsonify(a), True)._d == a._d", [z3.ForAll([x], loads(dumps(x)) == x)],
+    U.prove(prefix + ".lemma.json_identity", "A-J (loads(dumps(d)) == d) ==> _unjsonify(_jsonify(a), True)._d == a._d", [z3.ForAll([x], loads(dumps(x)) == x)],
             loads(dumps(x)) == x, {}, kind="lemma")
 
 
